@@ -7,7 +7,7 @@ type Ordered interface {
 	~int | ~int8 | ~int16 | ~int32 | ~int64 | ~uint | ~uint8 | ~uint16 | ~uint32 | ~uint64 | ~uintptr | ~float32 | ~float64 | ~string
 }
 
-// MapIterator iterates a map in ascending key order over a snapshot of its
+// MapIterator iterates a map in a fixed key order (see mapOrder) over a snapshot of its
 // keys, skipping keys deleted in the meantime and reading each value at the
 // time it is visited - one of the iteration orders Go permits.
 type MapIterator[M ~map[K]V, K Ordered, V any] struct {
@@ -28,9 +28,26 @@ func IterMap[M ~map[K]V, K Ordered, V any](m M) *MapIterator[M, K, V] {
 		}
 		ks := it.keys
 		sort.Slice(ks, func(i, j int) bool { return ks[i] < ks[j] })
+		switch mapOrder {
+		case 1: // descending
+			for i, j := 0, len(ks)-1; i < j; i, j = i+1, j-1 {
+				ks[i], ks[j] = ks[j], ks[i]
+			}
+		case 2: // starting in the middle, wrapping around (what a random start offset gives)
+			r := len(ks) / 2
+			rot := append(append(make([]K, 0, len(ks)), ks[r:]...), ks[:r]...)
+			copy(ks, rot)
+		}
 	}
 	return it
 }
+
+// mapOrder selects which of the iteration orders Go permits the instrumented code sees: 0 ascending keys,
+// 1 descending, 2 ascending from the middle. It is fixed for a whole exploration (same schedule, same order).
+var mapOrder int
+
+// SetMapOrder sets the map iteration order for all following executions.
+func SetMapOrder(o int) { mapOrder = ((o % 3) + 3) % 3 }
 
 // Next advances to the next key that is still present.
 func (it *MapIterator[M, K, V]) Next() bool {
